@@ -122,6 +122,11 @@ def gen_doc(rng, shape=None, max_subnets=5, max_hosts=4, n_public=None,
     if rng.random() < 0.1:
         # name coincidence: a process called like a service
         procs[0] = srvs[0]
+    # names that differ only in case are different names
+    for lst, a, b in ((oss, "linux", "Linux"), (srvs, "ssh", "SSH"),
+                      (procs, "tomcat", "Tomcat")):
+        if a in lst and b not in lst and rng.random() < 0.3:
+            lst.append(b)
     if like is not None:
         oss, srvs, procs = (list(like["os"]), list(like["services"]),
                             list(like["processes"]))
@@ -186,7 +191,7 @@ def gen_doc(rng, shape=None, max_subnets=5, max_hosts=4, n_public=None,
             "access": rng.choice(["root", "root", "root", 2, "user", 1])}
     doc["privilege_escalation"] = privescs
     scan_costs = [1, 1, 2, 3, 1.5] if cost_domain == "ge1" else \
-        [0, 1, 1, 2, 0.5, 3]
+        [0, 1, 1, 2, 0.5, 3, 0.3]
     for kname in ("service_scan_cost", "os_scan_cost", "subnet_scan_cost",
                   "process_scan_cost"):
         doc[kname] = rng.choice(scan_costs)
